@@ -59,7 +59,7 @@ class IncludeNode(Node):
         assert isinstance(self.token, TagToken)
         var = f" with {self.var}" if self.var else ""
         if self.alias:
-            var += f" as {self.alias}"
+            var += f" as {self.alias.as_source()}"
         if self.args:
             var += ","
         args = " " + ", ".join(str(arg) for arg in self.args) if self.args else ""
